@@ -142,7 +142,7 @@ def drivers():
 
 
 def cases(tier):
-    return [["t", e] for e in extras()] + [["g", i] for i in range(len(drivers()))] + _corpus_cases(tier)
+    return [["t", e] for e in extras() + gen.spines()] + [["g", i] for i in range(len(drivers()))] + _corpus_cases(tier)
 
 
 def _corpus_cases(tier):
